@@ -749,6 +749,8 @@ func (w *inst) evaluate(o op, ob obs, contentErr string, pre, post store.VerifSn
 				cls = "lookup/valid-toc-fails-after-layer-released-while-image-in-use"
 			}
 			add(cls, "%s failed (%s) although layer %s of %s has exactly this verified TOC digest", o.describe(w.fx), ob.Status, want.Name, im.Ref)
+		case !ob.OK && want != nil && faulty && !faultFiredBefore && strings.HasPrefix(w.flt.Target, "blob:") && w.flt.Target != fmt.Sprintf("blob:%d:%s", o.Img, want.Name):
+			add("lookup/fails-because-another-layer-failed", "%s failed (%s) although the wanted layer %s resolved without any error: the only failing registry request (%s) concerned ANOTHER layer of the image", o.describe(w.fx), ob.Status, want.Name, w.flt)
 		case !ob.OK && want != nil && faulty && faultFiredBefore:
 			add("lookup/fails-after-registry-error-has-passed", "%s failed (%s) although layer %s of %s has this TOC digest; the only injected registry error (%s) hit an EARLIER operation and the registry answers perfectly since (this operation sent %d requests)", o.describe(w.fx), ob.Status, want.Name, im.Ref, w.flt, reqAfter-reqBefore)
 		}
@@ -1019,25 +1021,6 @@ func keysOf[V any](m map[string]V) map[string]bool {
 		out[k] = true
 	}
 	return out
-}
-
-// resolutionStarted: the operation reaches getLayer and misses the layer table, so that
-// (if the manifest can be loaded) every layer of the image is being resolved.
-func (w *inst) resolutionStarted(o op, pre store.VerifSnap) bool {
-	if o.K != 'D' && o.K != 'B' {
-		return false
-	}
-	ref, toc := w.fx.images[o.Img-1].Ref, w.fx.tocOf(o.Toc).String()
-	if contains(pre.Layers[ref], toc) {
-		return false // getCachedLayer hit
-	}
-	if w.mode == "fuse" {
-		name := map[byte]string{'D': "diff", 'B': "blob"}[o.K]
-		if contains(pre.Tree[ref+"/"+toc], name) {
-			return false // the layer directory still has the entry: getLayer is not called
-		}
-	}
-	return true
 }
 
 // ---- executing one history ------------------------------------------------------------------
